@@ -112,7 +112,10 @@ CLAIMED = {
                 "MismatchShapeType{requested S, actual type of x}), C06_never_wrong_type, C06_type_identity (Shape::shapetype = "
                 "the type of the concrete Rust type, all 14 kinds), C06_dispatch (a record with code c decodes to the variant "
                 "whose type has code c), C06_try_from, C06_from_tryfrom (concrete -> generic -> concrete is the identity), "
-                "C06_bulk (bulk conversion = all values, or the error of the first foreign one). Tie: exhaustive 13 x 14 "
+                "C06_bulk (bulk conversion = all values, or the error of the first foreign one), C06_typed_iteration + "
+                "C06_typed_is_generic_converted (whole conformant files of mixed record types read without index by the typed "
+                "reader: the records of the type up to the first foreign one, then the mismatch error, then the end = the generic "
+                "result converted and cut after the first error; read_as = read followed by the bulk conversion). Tie: exhaustive 13 x 14 "
                 "requested/actual matrix through the real TryFrom/From/HasShapeType/convert_shapes_to_vec_of and through real "
                 "files of every actual type read as every requested type: by iteration, by typed random access "
                 "(read_nth_shape_as) and in bulk (read_as / read), also under a header announcing another type.",
@@ -226,7 +229,9 @@ CLAIMED = {
                 "header slot - so calling it again on working destinations completes both files byte for byte as an undisturbed "
                 "run), C12_failed_finalize_harmless (after a finalize that failed, once the destinations work, EVERY continuation - "
                 "more writes, accepted or rejected, finalizes anywhere, drop - returns what it returns in the undisturbed run and "
-                "leaves exactly the undisturbed files; false on the pinned tree, repaired by fix 276a00f), C12_reachable, C12_drop, "
+                "leaves exactly the undisturbed files; false on the pinned tree, repaired by fix 276a00f), C12_calls_never_panic / "
+                "C12_history_never_panics (any state, any fault plans: every call of every history returns Ok, the mismatch "
+                "error or the injected error), C12_reachable, C12_drop, "
                 "C12_chunking (write_all over short writes delivers exactly the bytes). Tie: for "
                 "EVERY k over the operations each workload really issues on each destination, one-shot and persistent, with "
                 "heal + retry; short-write schedules incl. the 19/20/21-byte boundary of the header padding.",
